@@ -90,7 +90,7 @@ feature_mapping_t base_pairwise_generator_t::make_pairwise(const feature_mapping
             const auto feature2 = mapping2(i2, 0);
 
             const auto key   = std::make_pair(std::min(feature1, feature2), std::max(feature1, feature2));
-            const auto value = (feature1 <= feature2) ? std::make_pair(i1, i2) : std::make_pair(i2, i1);
+            const auto value = std::make_pair(i1, i2); // NB: i1 indexes the first mapping, i2 the second one!
             upairs.try_emplace(key, value);
         }
     }
